@@ -918,6 +918,15 @@ func genQuery(r *Rng, g *GenCfg) string {
 		}
 		return f
 	case "agg":
+		if r.P(0.04) {
+			// a parameter that changes from step to step, over series that come and go
+			q.noAt++ // the pinned reference ignores the parameter when it decides step invariance (DESIGN 8.11)
+			sel := q.selector()
+			q.noAt--
+			return Pick(r, []string{
+				"quantile((time() % 100) / 100, " + sel + ")", "quantile by (a) (scalar(sum(m1)) / 1000, " + sel + ")", "quantile by (a, b) ((time() % 7) / 7, " + sel + ")",
+				"topk(1 + scalar(count(m1)) % 3, " + sel + ")", "bottomk by (a) (1 + time() % 2, " + sel + ")", "quantile(scalar(count(m1)) / 10, " + sel + ")"})
+		}
 		if r.P(0.05) {
 			// the sign of a zero result is only visible through a division; grouping by every label
 			// keeps a series of negative zeros in a group of its own
@@ -928,6 +937,21 @@ func genQuery(r *Rng, g *GenCfg) string {
 		}
 		return q.agg(d)
 	case "binary":
+		if r.P(0.04) {
+			// plain selectors of two metrics matched one-to-one on a label that one side also restricts
+			l := Pick(r, labelNames)
+			lhs := "m0{" + l + Pick(r, []string{"=", "!=", "=~"}) + `"` + Pick(r, labelValues) + `"}`
+			rhs := "m1"
+			if r.P(0.3) {
+				rhs = "m1" + q.matchers()
+			}
+			if r.P(0.5) {
+				lhs, rhs = rhs, lhs
+			}
+			op, _ := q.binop()
+			kw := Pick(r, []string{"on (" + l + ")", "on (" + l + ")", "ignoring (" + Pick(r, labelNames) + ")", "on (" + l + ", " + Pick(r, labelNames) + ")"})
+			return fmt.Sprintf("%s %s %s %s", lhs, op, kw, rhs)
+		}
 		if g.on("nameless-selector") && r.P(0.03) {
 			// operands over several metric names matched on the name (and more): match groups that
 			// differ in the name only meet again in the result when the operator drops it
